@@ -72,7 +72,7 @@ CLAIMED = {
          "are injected in association/session states of a target peer (2 states quick, 6 thorough). After each datagram a heartbeat on the same peer and a complete establish/delete on another association run; "
          "the trace is validated by TLC: the agent's death is an event no action consumes (crash site = first repository frame), an injected datagram has at most one answer, and the probe steps satisfy the C02 invariants "
          "and TablesAreImage for untainted sessions.",
-         "The byte-level garbage is sampled; what a mutated-but-accepted message does to the target peer's own sessions is deliberately unconstrained (taint). " + TRUST,
+         "Two more shards run the lattice against the UP4 plug-in (the mutated session messages reach its translation code). The byte-level garbage is sampled; what a mutated-but-accepted message does to the target peer's own sessions is deliberately unconstrained (taint). " + TRUST,
          "5 C01"),
  "C19": ("TLA+ R-spec SliceApi (unit conversion and 63-bit bound in BigNat arithmetic) + TraceC19: TLC judges status, header writes and slice-meter commands of real HTTP requests to the running agent",
          "Real HTTP against the agent process (BESS datapath): every method x body class (valid, empty, not JSON, wrong types, truncated body on a half-closed connection), every unit x boundary rates around "
